@@ -16,7 +16,7 @@ EXTENDS Integers, Sequences, FiniteSets, TLC
 CONSTANTS
   Procs,     \* set of process (goroutine) ids
   MaxOps,    \* operations each process may start
-  Pool,      \* sequence of subscriber descriptions [pat, sel, failAt, hide]
+  Pool,      \* sequence of subscriber descriptions [pat, sel, failAt, hide, tag]
   Ids,       \* event ids used by publish / unsubscribe
   EvIds,     \* events that may be published
   InitRegs,  \* set of possible initial registries (sequences over 1..Len(Pool))
@@ -33,10 +33,13 @@ Match(s, id) == Pool[s].pat = "*" \/ Pool[s].pat = id
 \* A selection is <<responseKey, fieldName, condition, form>> (form: where the directive is written - on the field, on an
 \* inline fragment or on the spread of a named fragment around it; it makes no difference): "" always there, "skip" carries @skip(if: $hide), "incl"
 \* @include(if: $hide), where $hide is a variable of the SUBSCRIBER'S request (given with it or defaulted there).
-Shown(s, k) == k[3] = "" \/ (k[3] = "skip" /\ ~Pool[s].hide) \/ (k[3] = "incl" /\ Pool[s].hide)
+\* A key with the condition "arg" selects a field of the event that takes an argument and answers with what it was given:
+\* the argument is written as a literal that HOLDS the variable $tag of the subscriber's request (in an input object, form
+\* "", or as the last member of a list, form "list"); the value under that key is the subscriber's tag.
+Shown(s, k) == k[3] \in {"", "arg"} \/ (k[3] = "skip" /\ ~Pool[s].hide) \/ (k[3] = "incl" /\ Pool[s].hide)
 MsgOf(s, ev) ==
   LET ks == SelectSeq(SelKeys[Pool[s].sel], LAMBDA k : Shown(s, k))
-  IN  [i \in 1..Len(ks) |-> <<ks[i][1], EvVals[ev][ks[i][2]]>>]
+  IN  [i \in 1..Len(ks) |-> <<ks[i][1], IF ks[i][3] = "arg" THEN [k |-> "str", v |-> Pool[s].tag] ELSE EvVals[ev][ks[i][2]]>>]
 
 VARIABLES
   reg,        \* the registry: sequence of subscribers in registration order
@@ -83,6 +86,10 @@ Subscribe(p, s) ==
   /\ nops' = [nops EXCEPT ![p] = @ + 1]
   /\ hist' = Append(hist, [p |-> p, b |-> "sub", s |-> s, reg |-> reg'])
   /\ UNCHANGED <<sends, pc, failed, hvars>>
+
+\* A subscription request that is refused - one of its root fields fails - registers nothing, whatever its other root
+\* fields resolved to: a stuttering step (allowed by [][Next]_vars; the harness sends such requests before subscribing).
+SubscribeRefused(p, s) == UNCHANGED vars
 
 \* Root.Unsubscribe(id): remove exactly the matching subscribers, clean each up once.
 Unsubscribe(p, id) ==
